@@ -42,7 +42,7 @@ def jobs_for(ctx):
     return jobs
 
 
-def run(ctx):
+def body(ctx):
     jobs = jobs_for(ctx)
     res = pool_map("mixed", "record_lz", jobs, min_chunk=40, timeout=3000)
     insts, owners = [], []
@@ -100,6 +100,10 @@ def run(ctx):
                 ctx.nontriv(ident)
     j, r, ident = owners[0]
     ctx.sample({"train": j["train"], "test": j["test"], "cfg": j["cfg"], "expected_columns": exp[0]["cols"][:8], "expected_train_rows": exp[0]["train"]})
+
+
+def run(ctx):
+    body(ctx)
     ctx.exhaustive = False
     ctx.assumptions += ["the hash value of every phrase is logged from the fitted hash function and given to TLC, so collisions "
                         "are part of the model; the murmur hash itself is not specified"]
